@@ -1,9 +1,12 @@
 import CJ.Drv.Loop
 import CJ.Drv.Derive
 import CJ.Drv.ClientSession
+import CJ.Drv.Cidr
+import CJ.Drv.Generations
 /-! Driver for C01: the whole derivation (keys, phantom, port, identifiers) on both sides, and the
 Lean SHA-256 / HMAC / HKDF on their own; the client transports as state machines (`chist`) and the
-station's ingest of a wrapper that carries a registration response (`ingest`). -/
+station's ingest of a wrapper that carries a registration response (`ingest`); `net.ParseCIDR` on a
+configured subnet string (`cidr`, `cidrgroup`); the station's table of generations (`gens`, `gensload`). -/
 open CJ.Drv
 
 def main : IO Unit := runDriver fun
@@ -15,4 +18,8 @@ def main : IO Unit := runDriver fun
   | "dtlscred" :: args => Derive.handleDtlsCred args
   | "chist" :: args => ClientSession.handleHist args
   | "ingest" :: args => ClientSession.handleIngest args
+  | "cidr" :: args => Cidr.handle args
+  | "cidrgroup" :: args => Cidr.handleGroup args
+  | "gens" :: args => Generations.handle args
+  | "gensload" :: args => Generations.handleLoad args
   | _ => none
